@@ -99,7 +99,9 @@ Mix ==
                             "DetachedSetBounds", "DetachedSetBounds", "Copy", "Merge", "BuildFromString", "SetFunctional", "RenameReaction",
                             "RenameMetabolite", "SwitchSolver", "ReAddDetached", "ReAddDetached", "Repair", "FixObjective">>
     [] Profile = "ko" -> <<"GeneKnockOut", "GeneKnockOut", "GeneKnockOut", "KnockOutModelGenes", "KnockOutModelGenes",
-                           "RxnKnockOut", "SetRule", "SetRule", "Enter", "Exit", "SetBounds", "AddReactions", "SetFunctional">>
+                           "RxnKnockOut", "SetRule", "SetRule", "Enter", "Exit", "SetBounds", "AddReactions", "SetFunctional",
+                           \* rules rewritten in place between knock-outs
+                           "RemoveGenes", "RenameGene">>
     [] Profile = "copy" -> <<"Copy", "Copy", "AddReactions", "RemoveReactions", "RemoveMetabolites", "RxnAddMetabolites",
                              "RxnIMul", "SetBounds", "SetRule", "GeneKnockOut", "RemoveGenes", "RenameGene", "RenameReaction",
                              "RenameMetabolite", "SetObjective", "SetDirection", "SetMedium", "AddUserCons", "AddGroup", "AddGroup",
@@ -176,7 +178,9 @@ DrawOp(r, S) ==
     [] k = "SetUB" -> base @@ [r |-> rx, v |-> Pick(HiVals, d[8])]
     [] k = "SetBounds" -> base @@ [r |-> rx, lo |-> Pick(LoVals, d[8]), hi |-> Pick(HiVals, d[9])]
     [] k = "RxnKnockOut" -> base @@ [r |-> rx]
-    [] k = "BuildFromString" -> base @@ [r |-> rx, d |-> DrawD(C, SubSeq(d, 8, 12)), arrow |-> Pick(<<"fwd", "rev", "both">>, d[13])]
+    [] k = "BuildFromString" -> base @@ [r |-> rx, d |-> DrawD(C, SubSeq(d, 8, 12)), arrow |-> Pick(<<"fwd", "rev", "both">>, d[13]),
+                                         \* spelling of the equation: 0 plain, 1 a catalyst on both sides, 2 one term split in two (same meaning)
+                                         spell |-> d[14] % 3]
     [] k = "SetFunctional" -> base @@ [g |-> gn, b |-> d[8] % 2 = 0]
     [] k = "Repair" -> base
     [] k = "FixObjective" -> base
@@ -293,12 +297,25 @@ DetOps ==
    [a |-> "RemoveGenes", s |-> 1, gs |-> <<"g1">>, rr |-> FALSE, form |-> 0],
    [a |-> "RemoveMetabolites", s |-> 1, ms |-> <<"m1">>, destructive |-> FALSE, form |-> 0],
    [a |-> "Enter", s |-> 1], [a |-> "Exit", s |-> 1]}
+\* knock-out vocabulary on seed model 1 (rules g1; g1 and g2; g2 or g3): knock-outs in any order, one at a time or
+\* together, between edits that rewrite the rules in place (gene removal, renaming) or replace them
+KoOps ==
+  {[a |-> "GeneKnockOut", s |-> 1, g |-> g] : g \in {"g1", "g2", "g3"}}
+  \cup {[a |-> "KnockOutModelGenes", s |-> 1, gs |-> <<"g2">>, form |-> 0],
+        [a |-> "KnockOutModelGenes", s |-> 1, gs |-> <<"g3", "g1">>, form |-> 1],
+        [a |-> "RemoveGenes", s |-> 1, gs |-> <<"g3">>, rr |-> FALSE, form |-> 0],
+        [a |-> "RemoveGenes", s |-> 1, gs |-> <<"g1">>, rr |-> FALSE, form |-> 1],
+        [a |-> "RenameGene", s |-> 1, g |-> "g2", new |-> "g4", more |-> <<>>],
+        [a |-> "SetRule", s |-> 1, r |-> "r3", rule |-> And2(G("g2"), G("g3")), form |-> 0],
+        [a |-> "Enter", s |-> 1], [a |-> "Exit", s |-> 1]}
 FullOps ==
   IF FullSet = "mid" THEN
      BoundOps \cup {
         [a |-> "RxnAddMetabolites", s |-> 1, r |-> "r1", d |-> D1("m2", 1), combine |-> TRUE, form |-> 0],
         [a |-> "RxnAddMetabolites", s |-> 1, r |-> "r1", d |-> D1("m1", -2), combine |-> FALSE, form |-> 2],
         [a |-> "RemoveReactions", s |-> 1, rs |-> <<"r1">>, orphans |-> TRUE, form |-> 0],
+        \* one call for several reactions, the objective reaction (r3 in seed model 1) not last
+        [a |-> "RemoveReactions", s |-> 1, rs |-> <<"r3", "r2">>, orphans |-> FALSE, form |-> 0],
         [a |-> "ReAddDetached", s |-> 1, r |-> "r1"],
         [a |-> "AddReactions", s |-> 1, shape |-> 2, specs |-> <<Spec("r4", St1("m1", -1, "m4", 2), -5, 5, And2(G("g1"), G("g4")))>>],
         [a |-> "RemoveMetabolites", s |-> 1, ms |-> <<"m1">>, destructive |-> FALSE, form |-> 0],
@@ -308,6 +325,7 @@ FullOps ==
         [a |-> "SetObjective", s |-> 1, form |-> 0, d |-> [x \in RxU |-> IF x = "r2" THEN 1 ELSE 0]]} ELSE
   IF FullSet = "analyze" THEN AnalyzeOps ELSE
   IF FullSet = "det" THEN DetOps ELSE
+  IF FullSet = "ko" THEN KoOps ELSE
   IF FullSet = "copy" THEN CopyOps ELSE
   IF FullSet = "io" THEN IoOps ELSE
   IF FullSet = "bounds" THEN BoundOps ELSE
@@ -329,9 +347,13 @@ FullOps ==
         [a |-> "RxnIAdd", s |-> 1, r |-> "r1", q |-> "r1"],
         [a |-> "RxnISub", s |-> 1, r |-> "r1", q |-> "r2"],
         [a |-> "RemoveReactions", s |-> 1, rs |-> <<"r3">>, orphans |-> FALSE, form |-> 1],
+        [a |-> "RemoveReactions", s |-> 1, rs |-> <<"r3", "r2">>, orphans |-> FALSE, form |-> 0],
+        [a |-> "RemoveGenes", s |-> 1, gs |-> <<"g2", "g3">>, rr |-> TRUE, form |-> 0],
         [a |-> "SetObjective", s |-> 1, form |-> 0, d |-> [x \in RxU |-> IF x = "r2" THEN 1 ELSE 0]],
         [a |-> "RxnAddMetabolites", s |-> 1, r |-> "r1", d |-> D1("m1", -2), combine |-> FALSE, form |-> 2],
         [a |-> "Repair", s |-> 1],
+        [a |-> "BuildFromString", s |-> 1, r |-> "r1", d |-> [x \in MetU |-> IF x = "m1" THEN -2 ELSE IF x = "m2" THEN 1 ELSE 0], arrow |-> "both", spell |-> 1],
+        [a |-> "BuildFromString", s |-> 1, r |-> "r1", d |-> [x \in MetU |-> IF x = "m1" THEN -2 ELSE IF x = "m2" THEN 1 ELSE 0], arrow |-> "fwd", spell |-> 2],
         \* analyses inside the open context: whatever they do to the model is undone with it
         [a |-> "Analyze", s |-> 1, kind |-> "optimize_min", arg |-> 0],
         [a |-> "Analyze", s |-> 1, kind |-> "pfba", arg |-> 0],
@@ -341,7 +363,7 @@ FullOps ==
 FullPrefix == IF FullSet = "copy" THEN SeedOps(2, "glpk") \o <<[a |-> "Enter", s |-> 1],
                                                               [a |-> "Copy", s |-> 1, t |-> 2, kind |-> "copy"]>> ELSE
               IF FullSet = "io" THEN SeedOps(1, "glpk") \o <<[a |-> "RoundTrip", s |-> 1, fmt |-> "json"]>> ELSE
-              IF FullSet = "analyze" THEN SeedOps(1, "glpk")
+              IF FullSet \in {"analyze", "ko"} THEN SeedOps(1, "glpk")
               ELSE SeedOps(1, "glpk") \o <<[a |-> "Enter", s |-> 1]>>
 
 Init ==
